@@ -355,6 +355,53 @@ class C17(core.Check):
                 c["backport"] = rng.random() < 0.5
                 first_free = 0 if c["kind"] == "slink" and not c.get("int_leader") else 1
                 c["how"] = ["assign" if i < first_free else rng.choice(["assign", "iadd", "slice", "index"]) for i in range(len(c["moves"]))]
+                # Round 6b: `transform()` is a public query ("where would the follower go?"): 0-2 extra calls between
+                # the leader's move and update() — a query must not change what update() does
+                c["queries"] = [rng.choice([0, 0, 1, 2]) for _ in c["moves"]]
+                if not any(c["queries"]) and rng.random() < 0.5:
+                    c["queries"][rng.randrange(len(c["queries"]))] = 1
+        # Round 6b: the arrays a clamp is created from are the caller's (rows of a point table, vertex positions):
+        # the caller changes them in place after the clamp exists; the clamp must stay on the manifold it was declared on
+        for c in cases:
+            if c["kind"] in ("line", "radial", "plane", "curve"):
+                c["caller_mutates"] = rng.random() < 0.5
+        # Round 6b: geometry far from the origin (projected geographic coordinates, 1e5 … 1e7), the creation position on
+        # the constraint at a distance from the clamp's initial-guess point that is small against the coordinates
+        # (a few 1e-6 of them) but large in itself (decimetres … tens of metres): a fresh clamp reports its creation position
+        n_far = 3 if tier == "quick" else 12
+        for kind in ("line", "plane", "radial", "curve", "surface"):
+            for j in range(n_far):
+                M = [10**5, 10**6, 10**7][j % 3]
+                fr = Frame(rng)
+                far_o = [Fr(rng.choice([1, -1]) * rng.randint(4 * M // 10, M)) + rq(rng, 0, 1, 8) for _ in range(3)]
+                fr.o = far_o
+                step = Fr(M, 10**5) * Fr(rng.randint(2, 7), 10)  # 0.2 … 0.7 of 1e-5·M
+                if kind == "line":
+                    p1 = fr.P(0, 0, 0)
+                    d = fr.D(rq(rng, 1, 3), rq(rng, -2, 2), rq(rng, -2, 2))
+                    dlen = Fr(math.sqrt(float(dot(d, d)))).limit_denominator(1000)
+                    p2 = add(p1, mul(20 * step / dlen, d))
+                    pos = add(p1, mul(step / dlen, d))
+                    L = float(20 * step)
+                    cases.append({"kind": "line", "p1": S(p1), "p2": S(p2), "pos": S(pos), "on": True, "bounds": None, "ts": [str(Fr(L * x).limit_denominator(64)) for x in (0.1, 0.6)], "far": M, "caller_mutates": j % 2 == 1})
+                elif kind == "plane":
+                    point = fr.P(0, 0, 0)
+                    n = fr.D(0, 0, rng.choice([1, 2, -3]))
+                    pos = add(point, mul(step, fr.D(Fr(3, 5), Fr(-4, 5), 0)))
+                    cases.append({"kind": "plane", "point": S(point), "n": S(n), "pos": S(pos), "on": True, "ab": [["1", "-2"], ["5/2", "1/2"]], "npseed": rng.randrange(2**31), "far": M, "caller_mutates": j % 2 == 1})
+                elif kind == "radial":
+                    center = fr.P(0, 0, 0)
+                    n = fr.D(0, 0, rng.choice([1, 2, -3]))
+                    pos = add(center, mul(step, fr.D(Fr(3, 5), Fr(4, 5), Fr(1, 2))))
+                    cases.append({"kind": "radial", "center": S(center), "n": S(n), "pos": S(pos), "turns": [["3", "1"], ["1", "-1/2"]], "bounded": False, "far": M, "caller_mutates": j % 2 == 1})
+                elif kind == "curve":
+                    a = fr.P(0, 0, 0)
+                    b = add(a, mul(2 * step, fr.D(Fr(4, 5), Fr(3, 5), 0)))
+                    base = add(a, mul(Fr(1, 2), sub(b, a)))
+                    cases.append({"kind": "curve", "curve": {"c": "line", "p1": S(a), "p2": S(b), "b": ["0", "1"]}, "pos": S(base), "on": True, "params": ["1/4", "3/4"], "frame": [fl(fr.o)] + [fl(e) for e in fr.e], "est": rng.choice([-1, 1]) * 0.25, "far": M, "local": float(2 * step)})
+                else:
+                    sstep = float(step) if M >= 10**6 else 0.5
+                    cases.append({"kind": "surface", "surface": ["sheared", "bilinear", "paraboloid"][j % 3], "frame": [fl(fr.o)] + [fl(e) for e in fr.e], "uv0": [0.31 * min(sstep, 6.0), -0.23 * min(sstep, 6.0)], "off": 0.0, "uvs": [[0.5, -1.0]], "far": M, "noguess": True})
         # documented rejection: leader on the axis
         for _ in range(3):
             fr = Frame(rng)
@@ -381,11 +428,23 @@ class C17(core.Check):
 
         k = case["kind"]
         out: Dict[str, Any] = {}
+        def callers(*vs):
+            """float arrays the caller owns (rows of its point table / vertex positions)"""
+            return [np.array(FV(v), dtype=float) for v in vs]
+
+        def caller_moves(arrs):
+            """after the clamp exists the caller changes its own arrays in place (the mesh moves on)"""
+            if case.get("caller_mutates"):
+                for i, a in enumerate(arrs):
+                    a *= -1.25
+                    a += np.array([0.75, -1.5, 2.25]) * (i + 1)
+
         if k == "line":
-            p1, p2, pos = FV(case["p1"]), FV(case["p2"]), FV(case["pos"])
+            p1, p2, pos = callers(case["p1"], case["p2"], case["pos"])
             b = case["bounds"]
             clamp = cb.LineClamp(pos, p1, p2, None if b is None else (float(Fr(b[0])), float(Fr(b[1]))))
-            out["s"] = float(f.norm(np.array(p2) - np.array(p1)))
+            out["s"] = float(f.norm(np.array(FV(case["p2"])) - np.array(FV(case["p1"]))))
+            caller_moves([p1, p2, pos])
             out["bounds"] = [float(x) for x in clamp.bounds[0]]
             out["initial"] = fl(clamp.position)
             out["param0"] = float(clamp.params[0])
@@ -396,8 +455,10 @@ class C17(core.Check):
             return out
         if k == "plane":
             np.random.seed(case["npseed"])
-            clamp = cb.PlaneClamp(FV(case["pos"]), FV(case["point"]), FV(case["n"]))
+            own = callers(case["pos"], case["point"], case["n"])
+            clamp = cb.PlaneClamp(*own)
             out["initial"] = fl(clamp.position)
+            caller_moves(own)
             f0 = np.asarray(clamp.function([0.0, 0.0]))
             out["u"] = fl(np.asarray(clamp.function([1.0, 0.0])) - f0)
             out["v"] = fl(np.asarray(clamp.function([0.0, 1.0])) - f0)
@@ -417,8 +478,10 @@ class C17(core.Check):
             bounds = None
             if case["bounded"]:
                 bounds = [min(ts + [0.0]) - 0.5, max(ts + [0.0]) + 0.5]
-            clamp = cb.RadialClamp(pos, center, n, bounds)
+            own = callers(pos, center, n)
+            clamp = cb.RadialClamp(own[0], own[1], own[2], bounds)
             out["initial"] = fl(clamp.position)
+            caller_moves(own)
             out["radius"] = radius
             out["ts"] = ts
             out["positions"] = []
@@ -434,9 +497,11 @@ class C17(core.Check):
                 # a user-supplied starting estimate: near the right parameter, not equal to it
                 est = min(max(float(curve.get_closest_param(FV(case["pos"]))) + case["est"] * (hi - lo), lo), hi)
             out["estimate"] = est
-            clamp = cb.CurveClamp(FV(case["pos"]), curve, est)
+            own = callers(case["pos"])
+            clamp = cb.CurveClamp(own[0], curve, est)
             out["initial"] = fl(clamp.position)
             out["param0"] = float(clamp.params[0])
+            caller_moves(own)
             out["positions"] = []
             out["defs"] = []
             lo, hi = float(curve.bounds[0]), float(curve.bounds[1])
@@ -460,7 +525,7 @@ class C17(core.Check):
             fn, resid = surface_fn(case["surface"], case["frame"])
             e3 = np.array(case["frame"][3])
             pos = np.asarray(fn(case["uv0"])) + case["off"] * e3
-            guess = list(case["uv0"]) if case["off"] == 0 else None
+            guess = list(case["uv0"]) if case["off"] == 0 and not case.get("noguess") else None
             if case.get("est") is not None:
                 guess = [case["uv0"][0] + case["est"][0], case["uv0"][1] + case["est"][1]]
             clamp = ParametricSurfaceClamp(pos, fn, [[-3, 3], [-3, 3]], guess)
@@ -583,8 +648,11 @@ class C17(core.Check):
             else:
                 link.leader = owned  # what Grid.update does with the clamp position
             snap = np.copy(owned)
+            nq = (case.get("queries") or [0] * len(case["moves"]))[len(out["steps"])]
+            previews = [fl(link.transform()) for _ in range(nq)]
             link.update()
             out["steps"].append(observe(link, owned, snap))
+            out["steps"][-1]["previews"] = previews
             if case.get("backport"):
                 # the arrays given to the constructor are the caller's own points (vertex.position): the caller
                 # applies every result to them in place (Vertex.move_to, as the optimizers' backport() does)
@@ -729,6 +797,8 @@ class C17(core.Check):
         elif k == "tlink":
             for m, a, st in zip(case["moves"], model, impl["steps"]):
                 w = chk(a, st["follower"], POS_TOL, f"TranslationLink follower after leader -> {m}")
+                for pv in st.get("previews", []):
+                    w = w or chk(a, pv, POS_TOL, f"TranslationLink.transform() queried after leader -> {m}")
                 if w:
                     return w
         elif k == "slink":
@@ -737,6 +807,8 @@ class C17(core.Check):
                 return w
             for m, a, st in zip(case["moves"], model[1:], impl["steps"]):
                 w = chk(a, st["follower"], POS_TOL, f"SymmetryLink follower after leader -> {m}")
+                for pv in st.get("previews", []):
+                    w = w or chk(a, pv, POS_TOL, f"SymmetryLink.transform() queried after leader -> {m}")
                 if w:
                     return w
         elif k == "grid":
@@ -758,6 +830,8 @@ class C17(core.Check):
                     w = chk(parts[0], st["leader"], 1e-12, "RotationLink: leader position handed to the link") or chk(
                         parts[1], st["follower"], 1e-7, f"RotationLink follower after turning the leader by {m}"
                     )
+                    for pv in st.get("previews", []):
+                        w = w or chk(parts[1], pv, 1e-7, f"RotationLink.transform() queried after turning the leader by {m}")
                     if w:
                         return w
                 elif a != "ok":
@@ -778,6 +852,22 @@ class C17(core.Check):
         if k == "rlink" and not case["moves"]:
             return [{"site": "RotationLink:leader-on-axis-accepted", "what": "a leader on the axis was accepted"}]
         A = np.array
+        if case.get("far") and k in ("line", "plane", "radial", "curve", "surface"):
+            # far from the origin a tolerance relative to the coordinates is metres: a clamp created ON its manifold
+            # reports the creation position to 1e-7 of the coordinates (the library's minimiser does 1e-6 absolute)
+            cls = {"line": "LineClamp", "plane": "PlaneClamp", "radial": "RadialClamp", "curve": "CurveClamp", "surface": "ParametricSurfaceClamp"}[k]
+            created = A(impl["pos"]) if k == "surface" else A(FV(case["pos"]))
+            err = float(np.linalg.norm(A(impl["initial"]) - created))
+            if err > 1e-7 * float(case["far"]):
+                out.append({"site": f"{cls}:initial-position:far-from-origin", "what": f"coordinates of the order of {case['far']:g}: a clamp created on its manifold reports a point {err:.3g} away from the creation position", "observed": impl["initial"], "expected": fl(created)})
+        if k in ("tlink", "slink", "rlink"):
+            cls = {"tlink": "TranslationLink", "slink": "SymmetryLink", "rlink": "RotationLink"}[k]
+            for m, st in zip(case["moves"], impl["steps"]):
+                sc = _scale(st["follower"])
+                bad = [pv for pv in st.get("previews", []) if not _near(pv, st["follower"], 1e-9 * sc)]
+                if bad:
+                    out.append({"site": f"{cls}:transform-query-changes-update", "what": f"leader -> {m}: transform() was asked {len(st['previews'])} time(s) before update(); the answers {st['previews']} are not the follower update() then stored", "observed": st["follower"]})
+                    break
         if k == "line":
             p1, p2, pos = A(FV(case["p1"])), A(FV(case["p2"])), A(FV(case["pos"]))
             d = p2 - p1
@@ -808,7 +898,8 @@ class C17(core.Check):
             nn = n / np.linalg.norm(n)
             sc = _scale(point, pos)
             for name in ("u", "v"):
-                if abs(A(impl[name]) @ nn) > 1e-12:
+                # u, v are read off as differences of positions: their rounding error grows with the coordinates
+                if abs(A(impl[name]) @ nn) > 1e-12 + 8e-16 * sc:
                     out.append({"site": "PlaneClamp:direction-not-in-plane", "what": f"{name}_dir . normal = {A(impl[name]) @ nn}"})
             exp = pos - ((pos - point) @ nn) * nn
             if abs((A(impl["initial"]) - point) @ nn) > 1e-9 * sc:
@@ -851,8 +942,11 @@ class C17(core.Check):
                 q = A(p) - fr[0]
                 x, y, z = q @ fr[1], q @ fr[2], q @ fr[3]
                 bad = False
-                if ck == "line":
+                if ck == "line" and not case.get("far"):  # the line (0,0,0) – (4,1,0) of the frame
                     bad = abs(z) > 1e-9 * sc or abs(y - x / 4) > 1e-9 * sc
+                elif ck == "line":
+                    a_, b_ = A(FV(case["curve"]["p1"])), A(FV(case["curve"]["p2"]))
+                    bad = float(np.linalg.norm(np.cross(A(p) - a_, b_ - a_))) > 1e-9 * sc * float(np.linalg.norm(b_ - a_))
                 elif ck == "circle":
                     bad = abs(z) > 1e-9 * sc or abs(math.hypot(x, y) - 2) > 1e-9 * sc
                 if bad:
@@ -988,8 +1082,10 @@ class C17(core.Check):
         k = case["kind"]
         if isinstance(impl, dict) and "raised" in impl:
             return f"{k}:rejected:{impl['raised']}"
+        if case.get("far"):
+            return f"{k}:far-from-origin"
         if k in ("line", "plane"):
-            return f"{k}:" + ("on" if case["on"] else "off") + (":bounds" if case.get("bounds") else "")
+            return f"{k}:" + ("on" if case["on"] else "off") + (":bounds" if case.get("bounds") else "") + (":caller-mutates-its-arrays" if case.get("caller_mutates") else "")
         if k == "curve":
             return f"curve:{case['curve']['c']}:" + ("on" if case["on"] else "off") + (":estimate" if case.get("est") is not None else "")
         if k == "surface":
